@@ -64,24 +64,28 @@ structure ProduceResp where
   offset : Int
   deriving DecidableEq, Repr
 
+/-- one iteration of the partition loop of `decode_produce_response` (`v0`: `>ihq`, `v2`: `>ihqq`) -/
+def producePartition (fmtP : List Char) (wide : Bool) (data : Bytes) (topic : Bytes) (cur : Int) : G ProduceResp :=
+  if wide then
+    match ru4 fmtP data cur with
+    | .error e => ([], .error e)
+    | .ok (partition, error, offset, _, cur) => ([⟨topic, partition, error, offset⟩], .ok cur)
+  else
+    match ru3 fmtP data cur with
+    | .error e => ([], .error e)
+    | .ok (partition, error, offset, cur) => ([⟨topic, partition, error, offset⟩], .ok cur)
+
+/-- one iteration of the topic loop -/
+def produceTopic (fmtN fmtP : List Char) (wide : Bool) (data : Bytes) (cur : Int) : G ProduceResp :=
+  match readShortAscii data cur with
+  | .error e => ([], .error e)
+  | .ok (topic, cur) => match ru1 fmtN data cur with
+    | .error e => ([], .error e)
+    | .ok (numPartitions, cur) => repeatG (producePartition fmtP wide data topic) numPartitions.toNat cur
+
 /-- the topic / partition loops shared by `v0` and `v2` of `decode_produce_response` -/
 def produceTopics (fmtN fmtP : List Char) (wide : Bool) (data : Bytes) (numTopics cur : Int) : G ProduceResp :=
-  repeatG (fun cur =>
-    match readShortAscii data cur with
-    | .error e => ([], .error e)
-    | .ok (topic, cur) => match ru1 fmtN data cur with
-      | .error e => ([], .error e)
-      | .ok (numPartitions, cur) =>
-        repeatG (fun cur =>
-          if wide then
-            match ru4 fmtP data cur with
-            | .error e => ([], .error e)
-            | .ok (partition, error, offset, _, cur) => ([⟨topic, partition, error, offset⟩], .ok cur)
-          else
-            match ru3 fmtP data cur with
-            | .error e => ([], .error e)
-            | .ok (partition, error, offset, cur) => ([⟨topic, partition, error, offset⟩], .ok cur))
-          numPartitions.toNat cur) numTopics.toNat cur
+  repeatG (produceTopic fmtN fmtP wide data) numTopics.toNat cur
 
 /-- `KafkaCodec.decode_produce_response(data, api_version)`, iterated to its end.
     `.error` = raised by the call itself (before any iteration). -/
@@ -120,6 +124,22 @@ def decodeMessageSetOpt (ext : Ext) (depth : Nat) : Option Bytes → Gen
   | none => ([], some .typeError)
   | some data => decodeMessageSet ext depth data
 
+/-- one iteration of the partition loop of `decode_fetch_response` -/
+def fetchPartition (ext : Ext) (depth : Nat) (data : Bytes) (topic : Bytes) (cur : Int) : G FetchResp :=
+  match ru3 fmt_decode_fetch_response_3 data cur with
+  | .error e => ([], .error e)
+  | .ok (partition, error, hw, cur) => match readIntString data cur with
+    | .error e => ([], .error e)
+    | .ok (ms, cur) => ([⟨topic, partition, error, hw, decodeMessageSetOpt ext depth ms⟩], .ok cur)
+
+/-- one iteration of the topic loop of `decode_fetch_response` -/
+def fetchTopic (ext : Ext) (depth : Nat) (data : Bytes) (cur : Int) : G FetchResp :=
+  match readShortAscii data cur with
+  | .error e => ([], .error e)
+  | .ok (topic, cur) => match ru1 fmt_decode_fetch_response_2 data cur with
+    | .error e => ([], .error e)
+    | .ok (numPartitions, cur) => repeatG (fetchPartition ext depth data topic) numPartitions.toNat cur
+
 /-- `KafkaCodec.decode_fetch_response(data, api_version)`, iterated to its end, every `messages`
     generator iterated to its end too. -/
 def decodeFetchResponse (ext : Ext) (depth : Nat) (data : Bytes) (apiVersion : Int) : G FetchResp :=
@@ -135,21 +155,7 @@ def decodeFetchResponse (ext : Ext) (depth : Nat) (data : Bytes) (apiVersion : I
     else .error .unboundLocal
   match start with
   | .error e => ([], .error e)
-  | .ok (numTopics, cur) =>
-    repeatG (fun cur =>
-      match readShortAscii data cur with
-      | .error e => ([], .error e)
-      | .ok (topic, cur) => match ru1 fmt_decode_fetch_response_2 data cur with
-        | .error e => ([], .error e)
-        | .ok (numPartitions, cur) =>
-          repeatG (fun cur =>
-            match ru3 fmt_decode_fetch_response_3 data cur with
-            | .error e => ([], .error e)
-            | .ok (partition, error, hw, cur) => match readIntString data cur with
-              | .error e => ([], .error e)
-              | .ok (ms, cur) =>
-                ([⟨topic, partition, error, hw, decodeMessageSetOpt ext depth ms⟩], .ok cur))
-            numPartitions.toNat cur) numTopics.toNat cur
+  | .ok (numTopics, cur) => repeatG (fetchTopic ext depth data) numTopics.toNat cur
 
 /-! ## ListOffsets -/
 
@@ -160,25 +166,28 @@ structure OffsetResp where
   offsets : List Int
   deriving DecidableEq, Repr
 
+/-- one iteration of the partition loop of `decode_offset_response` -/
+def offsetPartition (data : Bytes) (topic : Bytes) (cur : Int) : G OffsetResp :=
+  match ru3 fmt_decode_offset_response_2 data cur with
+  | .error e => ([], .error e)
+  | .ok (partition, error, numOffsets, cur) =>
+    match repeatR (ru1 fmt_decode_offset_response_3 data) numOffsets.toNat cur with
+    | .error e => ([], .error e)
+    | .ok (offsets, cur) => ([⟨topic, partition, error, offsets⟩], .ok cur)
+
+/-- one iteration of the topic loop of `decode_offset_response` -/
+def offsetTopic (data : Bytes) (cur : Int) : G OffsetResp :=
+  match readShortAscii data cur with
+  | .error e => ([], .error e)
+  | .ok (topic, cur) => match ru1 fmt_decode_offset_response_1 data cur with
+    | .error e => ([], .error e)
+    | .ok (numPartitions, cur) => repeatG (offsetPartition data topic) numPartitions.toNat cur
+
 /-- `KafkaCodec.decode_offset_response(data)` -/
 def decodeOffsetResponse (data : Bytes) : G OffsetResp :=
   match ru2 fmt_decode_offset_response_0 data 0 with
   | .error e => ([], .error e)
-  | .ok (_, numTopics, cur) =>
-    repeatG (fun cur =>
-      match readShortAscii data cur with
-      | .error e => ([], .error e)
-      | .ok (topic, cur) => match ru1 fmt_decode_offset_response_1 data cur with
-        | .error e => ([], .error e)
-        | .ok (numPartitions, cur) =>
-          repeatG (fun cur =>
-            match ru3 fmt_decode_offset_response_2 data cur with
-            | .error e => ([], .error e)
-            | .ok (partition, error, numOffsets, cur) =>
-              match repeatR (fun cur => ru1 fmt_decode_offset_response_3 data cur) numOffsets.toNat cur with
-              | .error e => ([], .error e)
-              | .ok (offsets, cur) => ([⟨topic, partition, error, offsets⟩], .ok cur))
-            numPartitions.toNat cur) numTopics.toNat cur
+  | .ok (_, numTopics, cur) => repeatG (offsetTopic data) numTopics.toNat cur
 
 /-! ## Metadata -/
 
@@ -208,51 +217,57 @@ structure TopicMeta where
 def dictOfList {κ ν : Type} [BEq κ] (l : List (κ × ν)) : List (κ × ν) :=
   l.foldl (fun d e => dictSet d e.1 e.2) []
 
+/-- one iteration of the broker loop of `decode_metadata_response` -/
+def metadataBroker (data : Bytes) (cur : Int) : R ((Int × BrokerMeta) × Int) :=
+  match ru1 fmt_decode_metadata_response_1 data cur with
+  | .error e => .error e
+  | .ok (nodeId, cur) => match readShortAscii data cur with
+    | .error e => .error e
+    | .ok (host, cur) => match ru1 fmt_decode_metadata_response_2 data cur with
+      | .error e => .error e
+      | .ok (port, cur) => .ok ((nodeId, (⟨nodeId, host, port⟩ : BrokerMeta)), cur)
+
+/-- one iteration of the partition loop -/
+def metadataPartition (data : Bytes) (topicName : Bytes) (cur : Int) : R ((Int × PartitionMeta) × Int) :=
+  match ru4 fmt_decode_metadata_response_6 data cur with
+  | .error e => .error e
+  | .ok (perr, partition, leader, numReplicas, cur) =>
+    match relativeUnpackN fmt_decode_metadata_response_7 numReplicas data cur with
+    | .error e => .error e
+    | .ok (replicas, cur) => match ru1 fmt_decode_metadata_response_8 data cur with
+      | .error e => .error e
+      | .ok (numIsr, cur) =>
+        match relativeUnpackN fmt_decode_metadata_response_9 numIsr data cur with
+        | .error e => .error e
+        | .ok (isr, cur) =>
+          .ok ((partition, (⟨topicName, partition, perr, leader, replicas, isr⟩ : PartitionMeta)), cur)
+
+/-- one iteration of the topic loop -/
+def metadataTopic (data : Bytes) (cur : Int) : R ((Bytes × TopicMeta) × Int) :=
+  match ru1 fmt_decode_metadata_response_4 data cur with
+  | .error e => .error e
+  | .ok (topicError, cur) => match readShortAscii data cur with
+    | .error e => .error e
+    | .ok (topicName, cur) => match ru1 fmt_decode_metadata_response_5 data cur with
+      | .error e => .error e
+      | .ok (numPartitions, cur) =>
+        match repeatR (metadataPartition data topicName) numPartitions.toNat cur with
+        | .error e => .error e
+        | .ok (parts, cur) =>
+          .ok ((topicName, (⟨topicName, topicError, dictOfList parts⟩ : TopicMeta)), cur)
+
 /-- `KafkaCodec.decode_metadata_response(data)`: `(brokers, topic_metadata)` as lists of dict items -/
 def decodeMetadataResponse (data : Bytes) : R (List (Int × BrokerMeta) × List (Bytes × TopicMeta)) :=
   match ru2 fmt_decode_metadata_response_0 data 0 with
   | .error e => .error e
   | .ok (_, numBrokers, cur) =>
     if numBrokers > maxBrokers then .error .invalidMessage else
-    match repeatR (fun cur =>
-        match ru1 fmt_decode_metadata_response_1 data cur with
-        | .error e => .error e
-        | .ok (nodeId, cur) => match readShortAscii data cur with
-          | .error e => .error e
-          | .ok (host, cur) => match ru1 fmt_decode_metadata_response_2 data cur with
-            | .error e => .error e
-            | .ok (port, cur) => .ok ((nodeId, (⟨nodeId, host, port⟩ : BrokerMeta)), cur))
-        numBrokers.toNat cur with
+    match repeatR (metadataBroker data) numBrokers.toNat cur with
     | .error e => .error e
     | .ok (brokers, cur) => match ru1 fmt_decode_metadata_response_3 data cur with
       | .error e => .error e
       | .ok (numTopics, cur) =>
-        match repeatR (fun cur =>
-            match ru1 fmt_decode_metadata_response_4 data cur with
-            | .error e => .error e
-            | .ok (topicError, cur) => match readShortAscii data cur with
-              | .error e => .error e
-              | .ok (topicName, cur) => match ru1 fmt_decode_metadata_response_5 data cur with
-                | .error e => .error e
-                | .ok (numPartitions, cur) =>
-                  match repeatR (fun cur =>
-                      match ru4 fmt_decode_metadata_response_6 data cur with
-                      | .error e => .error e
-                      | .ok (perr, partition, leader, numReplicas, cur) =>
-                        match relativeUnpackN fmt_decode_metadata_response_7 numReplicas data cur with
-                        | .error e => .error e
-                        | .ok (replicas, cur) => match ru1 fmt_decode_metadata_response_8 data cur with
-                          | .error e => .error e
-                          | .ok (numIsr, cur) =>
-                            match relativeUnpackN fmt_decode_metadata_response_9 numIsr data cur with
-                            | .error e => .error e
-                            | .ok (isr, cur) =>
-                              .ok ((partition, (⟨topicName, partition, perr, leader, replicas, isr⟩ : PartitionMeta)), cur))
-                      numPartitions.toNat cur with
-                  | .error e => .error e
-                  | .ok (parts, cur) =>
-                    .ok ((topicName, (⟨topicName, topicError, dictOfList parts⟩ : TopicMeta)), cur))
-            numTopics.toNat cur with
+        match repeatR (metadataTopic data) numTopics.toNat cur with
         | .error e => .error e
         | .ok (topics, _) => .ok (dictOfList brokers, dictOfList topics)
 
@@ -283,24 +298,27 @@ structure OffsetCommitResp where
   error : Int
   deriving DecidableEq, Repr
 
+/-- one iteration of the partition loop of `decode_offset_commit_response` -/
+def offsetCommitPartition (data : Bytes) (topic : Bytes) (cur : Int) : G OffsetCommitResp :=
+  match ru2 fmt_decode_offset_commit_response_3 data cur with
+  | .error e => ([], .error e)
+  | .ok (partition, error, cur) => ([⟨topic, partition, error⟩], .ok cur)
+
+/-- one iteration of the topic loop of `decode_offset_commit_response` -/
+def offsetCommitTopic (data : Bytes) (cur : Int) : G OffsetCommitResp :=
+  match readShortAscii data cur with
+  | .error e => ([], .error e)
+  | .ok (topic, cur) => match ru1 fmt_decode_offset_commit_response_2 data cur with
+    | .error e => ([], .error e)
+    | .ok (numPartitions, cur) => repeatG (offsetCommitPartition data topic) numPartitions.toNat cur
+
 /-- `KafkaCodec.decode_offset_commit_response(data)` -/
 def decodeOffsetCommitResponse (data : Bytes) : G OffsetCommitResp :=
   match ru1 fmt_decode_offset_commit_response_0 data 0 with
   | .error e => ([], .error e)
   | .ok (_, cur) => match ru1 fmt_decode_offset_commit_response_1 data cur with
     | .error e => ([], .error e)
-    | .ok (numTopics, cur) =>
-      repeatG (fun cur =>
-        match readShortAscii data cur with
-        | .error e => ([], .error e)
-        | .ok (topic, cur) => match ru1 fmt_decode_offset_commit_response_2 data cur with
-          | .error e => ([], .error e)
-          | .ok (numPartitions, cur) =>
-            repeatG (fun cur =>
-              match ru2 fmt_decode_offset_commit_response_3 data cur with
-              | .error e => ([], .error e)
-              | .ok (partition, error, cur) => ([⟨topic, partition, error⟩], .ok cur))
-              numPartitions.toNat cur) numTopics.toNat cur
+    | .ok (numTopics, cur) => repeatG (offsetCommitTopic data) numTopics.toNat cur
 
 structure OffsetFetchResp where
   topic : Bytes
@@ -310,28 +328,31 @@ structure OffsetFetchResp where
   error : Int
   deriving DecidableEq, Repr
 
+/-- one iteration of the partition loop of `decode_offset_fetch_response` -/
+def offsetFetchPartition (data : Bytes) (topic : Bytes) (cur : Int) : G OffsetFetchResp :=
+  match ru2 fmt_decode_offset_fetch_response_3 data cur with
+  | .error e => ([], .error e)
+  | .ok (partition, offset, cur) => match readShortBytes data cur with
+    | .error e => ([], .error e)
+    | .ok (metadata, cur) => match ru1 fmt_decode_offset_fetch_response_4 data cur with
+      | .error e => ([], .error e)
+      | .ok (error, cur) => ([⟨topic, partition, offset, metadata, error⟩], .ok cur)
+
+/-- one iteration of the topic loop of `decode_offset_fetch_response` -/
+def offsetFetchTopic (data : Bytes) (cur : Int) : G OffsetFetchResp :=
+  match readShortAscii data cur with
+  | .error e => ([], .error e)
+  | .ok (topic, cur) => match ru1 fmt_decode_offset_fetch_response_2 data cur with
+    | .error e => ([], .error e)
+    | .ok (numPartitions, cur) => repeatG (offsetFetchPartition data topic) numPartitions.toNat cur
+
 /-- `KafkaCodec.decode_offset_fetch_response(data)` -/
 def decodeOffsetFetchResponse (data : Bytes) : G OffsetFetchResp :=
   match ru1 fmt_decode_offset_fetch_response_0 data 0 with
   | .error e => ([], .error e)
   | .ok (_, cur) => match ru1 fmt_decode_offset_fetch_response_1 data cur with
     | .error e => ([], .error e)
-    | .ok (numTopics, cur) =>
-      repeatG (fun cur =>
-        match readShortAscii data cur with
-        | .error e => ([], .error e)
-        | .ok (topic, cur) => match ru1 fmt_decode_offset_fetch_response_2 data cur with
-          | .error e => ([], .error e)
-          | .ok (numPartitions, cur) =>
-            repeatG (fun cur =>
-              match ru2 fmt_decode_offset_fetch_response_3 data cur with
-              | .error e => ([], .error e)
-              | .ok (partition, offset, cur) => match readShortBytes data cur with
-                | .error e => ([], .error e)
-                | .ok (metadata, cur) => match ru1 fmt_decode_offset_fetch_response_4 data cur with
-                  | .error e => ([], .error e)
-                  | .ok (error, cur) => ([⟨topic, partition, offset, metadata, error⟩], .ok cur))
-              numPartitions.toNat cur) numTopics.toNat cur
+    | .ok (numTopics, cur) => repeatG (offsetFetchTopic data) numTopics.toNat cur
 
 /-! ## Group membership -/
 
@@ -344,6 +365,14 @@ structure JoinGroupResp where
   /-- `(member_id, member_metadata)` -/
   members : List (Bytes × Option Bytes)
   deriving DecidableEq, Repr
+
+/-- one iteration of the member loop of `decode_join_group_response` -/
+def joinGroupMember (data : Bytes) (cur : Int) : R ((Bytes × Option Bytes) × Int) :=
+  match readShortText data cur with
+  | .error e => .error e
+  | .ok (mid, cur) => match readIntString data cur with
+    | .error e => .error e
+    | .ok (md, cur) => .ok ((mid, md), cur)
 
 /-- `KafkaCodec.decode_join_group_response(data)` -/
 def decodeJoinGroupResponse (data : Bytes) : R JoinGroupResp :=
@@ -358,12 +387,7 @@ def decodeJoinGroupResponse (data : Bytes) : R JoinGroupResp :=
         | .ok (memberId, cur) => match ru1 fmt_decode_join_group_response_1 data cur with
           | .error e => .error e
           | .ok (numMembers, cur) =>
-            match repeatR (fun cur =>
-                match readShortText data cur with
-                | .error e => .error e
-                | .ok (mid, cur) => match readIntString data cur with
-                  | .error e => .error e
-                  | .ok (md, cur) => .ok ((mid, md), cur)) numMembers.toNat cur with
+            match repeatR (joinGroupMember data) numMembers.toNat cur with
             | .error e => .error e
             | .ok (members, _) => .ok ⟨error, generationId, groupProtocol, leaderId, memberId, members⟩
 
@@ -378,7 +402,7 @@ def decodeJoinGroupProtocolMetadata (data : Bytes) : R JoinGroupProtocolMetadata
   match ru2 fmt_decode_join_group_protocol_metadata_0 data 0 with
   | .error e => .error e
   | .ok (version, n, cur) =>
-    match repeatR (fun cur => readShortText data cur) n.toNat cur with
+    match repeatR (readShortText data) n.toNat cur with
     | .error e => .error e
     | .ok (subs, cur) => match readIntString data cur with
       | .error e => .error e
@@ -411,20 +435,23 @@ structure SyncGroupMemberAssignment where
   userData : Option Bytes
   deriving DecidableEq, Repr
 
+/-- one iteration of the topic loop of `decode_sync_group_member_assignment` -/
+def assignmentTopic (data : Bytes) (cur : Int) : R ((Bytes × List Int) × Int) :=
+  match readShortAscii data cur with
+  | .error e => .error e
+  | .ok (topic, cur) => match ru1 fmt_decode_sync_group_member_assignment_1 data cur with
+    | .error e => .error e
+    | .ok (np, cur) => match relativeUnpackN fmt_decode_sync_group_member_assignment_2 np data cur with
+      | .error e => .error e
+      | .ok (ps, cur) => .ok ((topic, ps), cur)
+
 /-- `KafkaCodec.decode_sync_group_member_assignment(data)` -/
 def decodeSyncGroupMemberAssignment (data : Bytes) : R SyncGroupMemberAssignment :=
   match ru2 fmt_decode_sync_group_member_assignment_0 data 0 with
   | .error e => .error e
   | .ok (version, n, cur) =>
     if version ≠ 0 then .error .protocol else
-    match repeatR (fun cur =>
-        match readShortAscii data cur with
-        | .error e => .error e
-        | .ok (topic, cur) => match ru1 fmt_decode_sync_group_member_assignment_1 data cur with
-          | .error e => .error e
-          | .ok (np, cur) => match relativeUnpackN fmt_decode_sync_group_member_assignment_2 np data cur with
-            | .error e => .error e
-            | .ok (ps, cur) => .ok ((topic, ps), cur)) n.toNat cur with
+    match repeatR (assignmentTopic data) n.toNat cur with
     | .error e => .error e
     | .ok (as, cur) => match readIntString data cur with
       | .error e => .error e
@@ -438,15 +465,18 @@ structure ApiVersion where
   maxVersion : Int
   deriving DecidableEq, Repr
 
+/-- one iteration of the loop of `decode_api_versions_response` -/
+def apiVersionEntry (data : Bytes) (cur : Int) : R (ApiVersion × Int) :=
+  match ru3 fmt_decode_api_versions_response_1 data cur with
+  | .error e => .error e
+  | .ok (k, lo, hi, cur) => .ok ((⟨k, lo, hi⟩ : ApiVersion), cur)
+
 /-- `KafkaCodec.decode_api_versions_response(data)`: `(error_code, api_versions)` -/
 def decodeApiVersionsResponse (data : Bytes) : R (Int × List ApiVersion) :=
   match ru3 fmt_decode_api_versions_response_0 data 0 with
   | .error e => .error e
   | .ok (_, errorCode, n, cur) =>
-    match repeatR (fun cur =>
-        match ru3 fmt_decode_api_versions_response_1 data cur with
-        | .error e => .error e
-        | .ok (k, lo, hi, cur) => .ok ((⟨k, lo, hi⟩ : ApiVersion), cur)) n.toNat cur with
+    match repeatR (apiVersionEntry data) n.toNat cur with
     | .error e => .error e
     | .ok (vs, _) => .ok (errorCode, vs)
 
